@@ -1,5 +1,6 @@
 import GoPlugin.Props.C15
 import GoPlugin.Generated.Facts
+import GoPlugin.Props.Hygiene
 /- C15 at the facts extracted from the current source. -/
 namespace GoPlugin.Instance.C15
 open GoPlugin Lifecycle Props.C15
@@ -35,5 +36,8 @@ theorem holds_server_up_until_quit (h : List Lifecycle.ConnEv) :
 
 theorem holds_crashed_target_not_found (socketFileLeft : Bool) : Lifecycle.reattachNotFound Facts.reattachProbe socketFileLeft = true :=
   Props.C15.crashed_target_not_found _ (by decide) socketFileLeft
+
+theorem holds_dead_plugin_never_found (k : Nat) : Hygiene.reattachFinds Facts.reattachFuncProbe k false = false :=
+  Props.Hygiene.dead_plugin_never_found _ (by decide) k
 
 end GoPlugin.Instance.C15
